@@ -415,6 +415,7 @@ def strategy(kind: str, rng: Any, explicit: list[str] | None = None, depth: int 
     """Return choose(runnable, baton). `explicit` (a replay) wins while it lasts and stays valid."""
     pos = [0]
     prio: dict[str, float] = {}
+    stall: dict[str, Any] = {"victim": None, "at": 0, "seen": 0}
     change_at = sorted(rng.randrange(1, horizon) for _ in range(depth)) if kind == "pct" else []
 
     def fallback(runnable: list[str], b: Baton) -> str:
@@ -439,6 +440,24 @@ def strategy(kind: str, rng: Any, explicit: list[str] | None = None, depth: int 
                     return rng.choice([r for r in runnable if r != b.last])
                 return b.last
             return rng.choice(runnable)
+        if kind == "stall":
+            # one victim session is parked at its k-th engine call until every other session has finished
+            # (the classic way to hold a multi-call statement open while others run to completion)
+            st = stall
+            if st["victim"] is None:
+                st["victim"] = rng.choice(runnable)
+                st["at"] = rng.choice([1, 2, 3, 3, 4, 4, 5, 6, 8, 12, max(2, horizon // 6)])
+            v = st["victim"]
+            if b.last == v and b.parked.get(v, ("",))[0] == "E":
+                st["seen"] += 1
+            others = [r for r in runnable if r != v]
+            if v in runnable and (st["seen"] < st["at"] or not others):
+                if b.last in runnable and b.last != v and b.parked[b.last][0] in ("E", "L"):
+                    return b.last
+                return v if (st["seen"] < st["at"] and rng.random() < 0.7) or not others else rng.choice(others)
+            if b.last in others and b.parked[b.last][0] in ("E", "L"):
+                return b.last
+            return rng.choice(others) if others else v
         if kind == "pct":
             for r in runnable:
                 if r not in prio:
